@@ -9,7 +9,17 @@ use crate::tape::Tape;
 pub const MEMBER_CATS: [&str; 5] = ["map", "child", "parent", "ghost", "type_hint"];
 pub const TRAIT_CATS: [&str; 4] = ["vars", "update", "quick_return", "default_case"];
 
-fn gen_member_cats(t: &mut Tape, lab: &mut Labels) -> (Vec<String>, bool) {
+fn gen_member_cats(t: &mut Tape, carrier: &[Instr], lab: &mut Labels) -> (Vec<String>, bool) {
+    // A parameterised #[parent(..)] names the carrier's own field type; repeating it over members of other types
+    // is not something the documentation shows, so such carriers repeat an explicit category list without `parent`.
+    if carrier.iter().any(|i| matches!(i, Instr::Parent { fields: Some(_), .. })) {
+        lab.add("repeat:categories");
+        let mut cats: Vec<String> = ["map", "child", "ghost", "type_hint"].iter().filter(|_| t.chance(2, 5)).map(|s| s.to_string()).collect();
+        if cats.is_empty() {
+            cats.push("map".into());
+        }
+        return (cats, true);
+    }
     match t.below(4) {
         0 => (vec![], false),
         1 => (vec![], true),
@@ -33,7 +43,7 @@ fn decorate_seq(t: &mut Tape, members: &mut [&mut Vec<Instr>], permeate_ok: bool
         let m = &mut *members[i];
         if !*active {
             if t.chance(1, 3) {
-                let (cats, parens) = gen_member_cats(t, lab);
+                let (cats, parens) = gen_member_cats(t, m, lab);
                 let permeate = permeate_ok && t.chance(1, 3);
                 if permeate {
                     lab.add("repeat:permeate");
@@ -56,7 +66,7 @@ fn decorate_seq(t: &mut Tape, members: &mut [&mut Vec<Instr>], permeate_ok: bool
                     lab.add("stop_repeat");
                 }
                 _ => {
-                    let (cats, parens) = gen_member_cats(t, lab);
+                    let (cats, parens) = gen_member_cats(t, m, lab);
                     let permeate = permeate_ok && t.chance(1, 3);
                     m.insert(t.below(m.len() + 1), Instr::StopRepeat);
                     m.insert(t.below(m.len() + 1), Instr::Repeat { permeate, cats, parens: parens || permeate });
